@@ -444,6 +444,90 @@ async fn part_b(ctx: &Ctx, dir: &std::path::Path, rf: u8, thorough: bool, sample
     (restarts, all_paths.len() as u64, outcomes)
 }
 
+/// Part C: the persistence protocol on its own.  The database is empty, so nothing but the state files can
+/// bring a watermark back after a restart.  A step = advance the watermark by 0 or 1 confirmed versions, then
+/// `persist_bucket_state` with a crash at step c (0 = none); after a crash the manager is dropped and a new
+/// one is initialised from the files.  Every sequence of steps up to `depth`.  Oracle: after every restart
+/// the watermark is at least the watermark at the last persist that returned success (what was made durable
+/// is never lost, whatever sequence of crashes follows).
+async fn part_c(ctx: &Ctx, dir: &std::path::Path, rf: u8, depth: usize, samples: &Samples) -> (u64, u64, u64) {
+    let q = quorum(rf);
+    let db = open_db_with(dir, NB);
+    let p: u16 = 3;
+    let bucket = p % NB;
+    let conf_dir = dir.join("buckets").join(format!("{bucket:05}")).join("confirmation");
+    let alphabet: Vec<(u8, u32)> = (0..=1u8).flat_map(|k| (0..=6u32).map(move |c| (k, c))).collect();
+    let (mut sequences, mut restarts, mut transitions) = (0u64, 0u64, 0u64);
+    let mut disk_states: HashSet<String> = HashSet::new();
+    // depth-first over sequences; a sequence is executed from scratch (live managers do not copy)
+    let mut stack: Vec<Vec<(u8, u32)>> = alphabet.iter().map(|a| vec![*a]).collect();
+    while let Some(seq) = stack.pop() {
+        sequences += 1;
+        let _ = std::fs::remove_dir_all(&conf_dir);
+        sierradb_cluster::verif::set_crash_point(0);
+        let mut m = BucketConfirmationManager::new(dir.to_path_buf(), NB, rf, HashSet::from([p]));
+        if let Err(e) = m.initialize(&db).await {
+            vcommon::machinery_fail(&format!("initialize: {e}"));
+        }
+        let mut durable = 0u64;
+        let mut ok = true;
+        for (i, (k, c)) in seq.iter().enumerate() {
+            transitions += 1;
+            for _ in 0..*k {
+                let next = m.get_watermark(p).map(|w| w.get()).unwrap_or(0) + 1;
+                if let Err(e) = m.update_confirmation(p, next, q).await {
+                    ctx.violation("C08/persist/update-failed-without-fault", &format!("update_confirmation: {e}"), json!({"part": "C", "rf": rf, "steps": seq[..=i]}));
+                    ok = false;
+                }
+            }
+            let w = m.get_watermark(p).map(|w| w.get()).unwrap_or(0);
+            sierradb_cluster::verif::set_crash_point(*c);
+            let r = m.persist_bucket_state(bucket).await;
+            sierradb_cluster::verif::set_crash_point(0);
+            if r.is_ok() {
+                durable = w;
+                continue;
+            }
+            // the crash: memory is lost, the directory stays as it is
+            let mut files: Vec<String> = std::fs::read_dir(&conf_dir).map(|rd| rd.flatten().map(|e| e.file_name().to_string_lossy().into_owned()).collect()).unwrap_or_default();
+            files.sort();
+            disk_states.insert(files.join("+"));
+            drop(m);
+            m = BucketConfirmationManager::new(dir.to_path_buf(), NB, rf, HashSet::from([p]));
+            restarts += 1;
+            if let Err(e) = m.initialize(&db).await {
+                ctx.violation(&format!("C08/restart/initialize-failed/crash-step={c}"), &format!("re-initialisation failed after a crash at persistence step {c}: {e} (files left: {files:?})"), json!({"part": "C", "rf": rf, "steps": seq[..=i]}));
+                ok = false;
+                break;
+            }
+            let after = m.get_watermark(p).map(|w| w.get()).unwrap_or(0);
+            if after < durable {
+                let crashes: Vec<String> = seq[..=i].iter().filter(|(_, c)| *c != 0).map(|(_, c)| c.to_string()).collect();
+                ctx.violation(
+                    &format!("C08/restart/persisted-watermark-lost/crash-steps={}", crashes.join(",")),
+                    &format!("watermark {durable} had been persisted successfully; after the crash sequence (advance, crash step) {:?} and a restart it is {after} (files left: {files:?}; the database holds no events, only the state files can restore it)", &seq[..=i]),
+                    json!({"part": "C", "rf": rf, "steps": seq[..=i]}),
+                );
+                ok = false;
+                break;
+            }
+        }
+        if ok && sequences % 997 == 1 {
+            samples.push(json!({"part": "C", "rf": rf, "steps": seq, "persisted_watermark_at_end": durable}));
+        }
+        if ok && seq.len() < depth {
+            for a in &alphabet {
+                let mut n = seq.clone();
+                n.push(*a);
+                stack.push(n);
+            }
+        }
+    }
+    let _ = tokio::time::timeout(Duration::from_secs(10), db.shutdown()).await;
+    let _ = disk_states;
+    (sequences, restarts, transitions)
+}
+
 pub fn run(args: Args) {
     let tier = args.tier;
     let thorough = tier.is_thorough();
@@ -474,6 +558,7 @@ pub fn run(args: Args) {
     let mut a2_runs = 0u64;
     let mut b_rows = Vec::new();
     let mut restarts_total = 0u64;
+    let mut c_row = json!(null);
     rt.block_on(async {
         for &rf in &rfs {
             a2_runs += part_a2(&ctx, &db, rf, &mut next_partition, &samples).await;
@@ -484,6 +569,14 @@ pub fn run(args: Args) {
             let _ = std::fs::remove_dir_all(&bdir);
             restarts_total += restarts;
             b_rows.push(json!({"rf": rf, "update_paths": paths_used, "restarts": restarts, "distinct_disk_states_after_crash": outcomes.len(), "disk_states": outcomes}));
+        }
+        {
+            let cdir = scratch("c08c");
+            let rf = 3;
+            let (sequences, restarts, tr) = part_c(&ctx, &cdir, rf, if thorough { 4 } else { 3 }, &samples).await;
+            let _ = std::fs::remove_dir_all(&cdir);
+            restarts_total += restarts;
+            c_row = json!({"rf": rf, "depth": if thorough { 4 } else { 3 }, "step_alphabet": "(advance 0|1, crash step 0..6)", "sequences_executed": sequences, "restarts": restarts, "steps": tr});
         }
         let _ = tokio::time::timeout(Duration::from_secs(10), db.shutdown()).await;
     });
@@ -498,6 +591,7 @@ pub fn run(args: Args) {
         "part_a_explicit_state_search": a_rows,
         "part_a2_actor_delivery_orders": a2_runs,
         "part_b_crash_points": b_rows,
+        "part_c_crash_sequences_state_files_only": c_row,
         "bounds": {
             "transactions": "versions {1}, {2,3}, {4}, {5} (part A); {1}, {2,3}, {4} (A2); {1}, {2,3} quick / + {4} thorough (B)",
             "counts": "0, 1, quorum-1, quorum, rf",
@@ -510,6 +604,7 @@ pub fn run(args: Args) {
         coverage,
         vec![
             "the transition function of part A is the real update_confirmation; fields it never reads are dropped from the state key (argument in c08.rs)".into(),
+            "part C runs the manager on an empty database (as the crate's own persistence test does): the oracle there is 'a successfully persisted watermark is never lost', a consequence of the property that does not rely on the database's counts masking a lost state file".into(),
             "part B models a process crash: the directory is left exactly as the injected io error leaves it; torn renames and power loss are not modelled".into(),
         ],
     )
@@ -531,6 +626,10 @@ fn replay(ctx: &Ctx, case: &Value) {
             rt.block_on(async {
                 if case["part"].as_str() == Some("A2") {
                     part_a2(ctx, &db, rf, &mut np, &samples).await;
+                } else if case["part"].as_str() == Some("C") {
+                    let cdir = scratch("c08rc");
+                    part_c(ctx, &cdir, rf, 4, &samples).await;
+                    let _ = std::fs::remove_dir_all(&cdir);
                 } else {
                     let bdir = scratch("c08rb");
                     part_b(ctx, &bdir, rf, true, &samples).await;
